@@ -4,11 +4,12 @@ CONSTANTS
   NC = 2
   Levels <- LevelsQuick
   Ops <- AllOps
-  UPair <- V2r
+  UPair <- V2rq
   UTriple <- V1
 INVARIANT InterIsRef
 INVARIANT DiffIsRef
 INVARIANT UpdRecIsRef
+INVARIANT InterKeepsClass
 INVARIANT NestedIsRef
 PROPERTY ArgsUnchanged
 CHECK_DEADLOCK FALSE
